@@ -466,7 +466,7 @@ class Shaping(Part):
     def strategy(self, tier):
         segs = st.lists(seg_strategy(), min_size=0, max_size=10)
         return st.builds(
-            lambda op, segs, length, pad, ps, inl, h: {"op": op, "segs": segs, "length": length, "pad": pad, "pad_style": ps, "inl": inl, "h": h},
+            lambda op, segs, length, pad, ps, inl, h, re_: {"op": op, "segs": segs, "length": length, "pad": pad, "pad_style": ps, "inl": inl, "h": h, "reentrant": re_},
             st.sampled_from(["split", "crop", "crop", "adjust", "shape", "simplify"]),
             segs,
             st.one_of(st.integers(0, 12), st.integers(0, 40)),
@@ -474,6 +474,7 @@ class Shaping(Part):
             st.sampled_from([None] + GS.PALETTE[6:10]),
             st.booleans(),
             st.integers(0, 4),
+            st.one_of(st.none(), st.none(), st.integers(0, 9)),
         )
 
     def check(self, spec, ctx):
@@ -518,7 +519,16 @@ class Shaping(Part):
             return
         if op == "crop":
             inl = spec["inl"]
-            out = [list(l) for l in sut(Segment.split_and_crop_lines, iter(segs), length, style=pstyle, pad=pad, include_new_lines=inl)]
+            def feeding():
+                # the iterable that is being shaped may itself shape something while it is consumed (a renderable that renders a child between two of its segments)
+                for k, sg in enumerate(segs):
+                    if spec.get("reentrant") is not None and k == spec["reentrant"] % max(1, len(segs)):
+                        list(Segment.split_and_crop_lines([Segment("inner one\ninner two"), Segment("x")], 4, pad=True))
+                    yield sg
+
+            out = [list(l) for l in sut(Segment.split_and_crop_lines, feeding(), length, style=pstyle, pad=pad, include_new_lines=inl)]
+            if spec.get("reentrant") is not None:
+                ctx.cls("shaping-while-being-consumed")
             want = model_lines(specs)
             if len(out) != len(want):
                 ctx.violation("split_and_crop_lines", "C13/crop/line-count", "%d lines, expected %d: %r" % (len(out), len(want), out))
